@@ -23,10 +23,10 @@ TWay    == Step(Ev.op = "way" /\ SendWhoareyou(Ev.n, Ev.p) /\ Len(wire') = Ev.i
 THs     == Step(Ev.op = "hs" /\ SendHandshake(Ev.n, Ev.p, Ev.m) /\ Len(wire') = Ev.i
                 /\ (Ev.out = "record") = wire'[Ev.i].rs)
 TTamper == Step(Ev.op = "tamper" /\ Tamper(Ev.i, Ev.t))
-(* Decode: the reported class is the specification's; the sender is the packet's *)
+(* Decode of packet i at node n, arriving from the address of node p *)
 TDeliver == Step(/\ Ev.op = "deliver" /\ Ev.i \in 1..Len(wire)
-                 /\ Ev.out = Outcome(Ev.n, wire[Ev.i]) /\ Ev.p = wire[Ev.i].src
-                 /\ Deliver(Ev.i, Ev.n))
+                 /\ Ev.out = Outcome(Ev.n, wire[Ev.i], Ev.p)
+                 /\ Deliver(Ev.i, Ev.n, Ev.p))
 TReset  == Step(Ev.op = "reset" /\ Reset(Ev.n))
 (* the clock of one node passes the handshake timeout (whether or not a challenge is pending) *)
 TExpire == Step(/\ Ev.op = "expireall"
